@@ -219,7 +219,7 @@ impl Basic {
         // very short CIDs may collide between concurrent handshakes (documented in Endpoint::retry:
         // "both will fail fast"): with several connections use at least 4 bytes
         let multi = opts.conns_per_client > 1 || opts.n_clients > 1;
-        let cid_choices: Vec<usize> = opts.cid_len_choices.iter().copied().filter(|l| (*l != 0 || opts.conns_per_client == 1) && (*l == 0 || *l >= 4 || !multi)).collect();
+        let cid_choices: Vec<usize> = opts.cid_len_choices.iter().copied().filter(|l| (*l != 0 || opts.conns_per_client == 1) && (*l == 0 || *l >= 4 || !multi || opts.retry == 0)).collect();
         let cid_len = *w.ch.pick("basic.cid_len", &cid_choices);
         let gso_s = 1 + w.ch.choose("basic.gso_s", 10) as usize;
         let sep = EpOpts { seed: 0x5E47 ^ w.ch.choose("basic.epseed", 1 << 16) as u64, cid_len, cid_lifetime: opts.cid_lifetime_ms.map(Duration::from_millis), max_udp_payload: *w.ch.pick("basic.udp_payload_s", &opts.udp_payload_choices), ..Default::default() };
